@@ -19,6 +19,8 @@ GROUPS = {
     'SrcTonality': dict(gen=['SrcTonality'], modules=['MV.Props.TieTonality'], kernels=['tadd', 'tsub', 'teq']),
     'SrcOps': dict(gen=['SrcRel', 'SrcPitch', 'SrcTonality', 'SrcOps'], modules=['MV.Props.TieOps'],
                    kernels=['noabs', 'no', 'neq', 'to', 'tflat', 'tsharp', 'co', 'cmod', 'parse']),
+    'SrcRender': dict(gen=['SrcRel', 'SrcPitch', 'SrcRender', 'KindPreds'], modules=['MV.Props.TieRender', 'MV.Props.TieKinds'],
+                      kernels=['n2p', 'm2p']),
 }
 HELPERS = ['MV.Lemmas.PyTie']
 
@@ -160,6 +162,37 @@ def cases(rng, kernel, n):
             out.append(([enc_chord(c, with_parts=False), p],
                         py_res(lambda: (lambda r: f'{r.type} {int(r.val)} {int(r.octave)} {frac_str(r.duration)}')(c.parse(p))),
                         {'chord': str(c), 'pitch': p}, [f'mode={c.tonality.mode}', f'elem={c.element}']))
+    elif kernel in ('n2p', 'm2p'):
+        import musiclang.write.out.to_midi as TM
+        from core import frac_str, enc_melody
+        from fractions import Fraction
+
+        def show_row(r):
+            v = Fraction(*r[3].as_integer_ratio()) if isinstance(r[3], float) else Fraction(r[3])
+            return f'({int(r[0])} {frac_str(r[1])} {frac_str(r[2])} {frac_str(v)} {int(r[4])} {int(bool(r[5]))} {int(bool(r[6]))})'
+        kinds = gen.NONREL + gen.REL + ['d', 'r', 'l']
+        for i in range(n):
+            c, text = gen.rand_chord(rng, octaves=(-1, 1))
+            tr = rng.randint(0, 3)
+            time = Fraction(rng.randint(0, 24), rng.choice([1, 2, 3, 4]))
+            lp = rng.choice([None, None, rng.randint(-30, 40)])
+            last = None if lp is None else [lp, 0, 1, 66, tr, 0, 0, None, None]
+            if kernel == 'n2p':
+                nt = rng.choice([gen.rand_note(rng, kinds=kinds, vals=(-5, 9), octs=(-1, 1), dur=gen.rand_duration(rng), p_amp=0.4)
+                                 for _ in range(1)])
+                f = lambda: (lambda r: show_row(r[0]) + ' ' + show_opt_int(None if r[1] is None else r[1][0]))(
+                    TM.note_to_pitch(nt, c, tr, time, None if last is None else list(last)))
+                out.append(([enc_note(nt), enc_chord(c, with_parts=False), tr, time, lp], py_res(f),
+                            {'note': enc_note(nt).s, 'chord': str(c), 'time': str(time), 'last': lp},
+                            [f'kind={nt.type}', f'last={"none" if lp is None else "some"}']))
+            else:
+                m = gen.rand_melody(rng, n_notes=(0, 5), kinds=gen.NONREL + gen.REL + ['d'], p_rest=0.2, p_cont=0.25,
+                                    vals=(-3, 8), octs=(-1, 1))
+                f = lambda: (lambda r: '(' + ' '.join(show_row(x) for x in r[0]) + ') ' + show_opt_int(None if r[1] is None else r[1][0]))(
+                    TM.melody_to_pitches(m, c, tr, time, None if last is None else list(last)))
+                out.append(([enc_melody(m), enc_chord(c, with_parts=False), tr, time, lp], py_res(f),
+                            {'melody': str(m), 'chord': str(c), 'time': str(time), 'last': lp},
+                            [f'len={len(m.notes)}', f'last={"none" if lp is None else "some"}']))
     else:
         raise KeyError(kernel)
     return out
